@@ -634,7 +634,7 @@ def refine_droplet(
         vmax = np.max(data_mask)
     vrng = vmax - vmin
 
-    if adjust_values:
+    if adjust_values and vrng != 0:
         # fit intensities in addition to all droplet parameters
 
         # add vmin and vrng as separate fitting parameters
